@@ -120,7 +120,9 @@ PermHeader(h, pi) ==
             !.und = [c \in 1 .. h.nc |-> h.und[CHOOSE x \in 1 .. h.nc : pi[x] = c]],
             !.tie = [c \in 1 .. h.nc |-> h.tie[CHOOSE x \in 1 .. h.nc : pi[x] = c]],
             !.lines = [j \in DOMAIN h.lines |-> [m |-> h.lines[j].m, r |-> [i \in DOMAIN h.lines[j].r |-> pi[h.lines[j].r[i]]]]]]
-Neutral == Done => \A pi \in AllPerms : LET h2 == PermHeader(s.h, pi) IN Meta("C11a", h2, pi, FinalDiff(TraceOf(s), TraceOf(Run(h2)), pi))
+Neutral == Done => \A pi \in AllPerms : LET h2 == PermHeader(s.h, pi)
+                                              T2 == TraceOf(Run(h2)) IN
+                   Meta("C11a", h2, pi, IF "KNOWN_F26" \in KNOWNCL /\ (NearTieQuot(TraceOf(s)) \/ NearTieQuot(T2)) THEN {} ELSE FinalDiff(TraceOf(s), T2, pi))
 (* C11(b): a withdrawn candidate is as good as absent: deleting the withdrawn candidates from the election (candidate list, *)
 (* tie order; the ballots never rank them after Election.__init__'s filtering) gives the same record, name by name        *)
 DropWithdrawn(h) ==
